@@ -48,6 +48,9 @@ func stagesOf(shape string) (st []stage, sources []string, sinks []string) {
 		return []stage{{"sa", "t0", "ta"}, {"sb", "t0", "tb"}}, []string{"t0"}, []string{"ta", "tb"}
 	case "fanin":
 		return []stage{{"sa", "ta", "t1"}, {"sb", "tb", "t1"}}, []string{"ta", "tb"}, []string{"t1"}
+	case "fanout+leaver": // two branches and a consumer outside the pipeline on the same topic, which leaves (its context is
+		// cancelled) while the source publishes: the branches lose nothing
+		return []stage{{"sa", "t0", "ta"}, {"sb", "t0", "tb"}}, []string{"t0"}, []string{"ta", "tb"}
 	case "split1": // one stage whose handler returns two outputs per input
 		return []stage{{"split", "t0", "t1"}}, []string{"t0"}, []string{"t1"}
 	case "split2": // a splitting stage followed by a pass-through stage
@@ -136,6 +139,22 @@ func body(sp spec) {
 		}
 		sk = append(sk, sinkT{t, ch})
 	}
+	var leave func()
+	if sp.Shape == "fanout+leaver" {
+		// subscribed first: when it leaves, the entries of the two branches move up in the topic's subscriber list
+		lctx, cancel := context.WithCancel(context.Background())
+		lch, err := g.Subscribe(lctx, "t0")
+		if err != nil {
+			vs.Fail("subscribe-error", "%v", err)
+			return
+		}
+		leave = cancel
+		go func() {
+			for m := range lch {
+				m.Ack()
+			}
+		}()
+	}
 	go func() {
 		if err := r.Run(context.Background()); err != nil {
 			vs.Fail("run-result", "%v", err)
@@ -164,6 +183,9 @@ func body(sp spec) {
 			}
 		}
 	}()
+	if leave != nil {
+		go leave()
+	}
 	// every sink must eventually hold every lineage that can reach it; a lost message leaves the body
 	// blocked here for ever (reported as a hang)
 	arrived := ""
@@ -237,5 +259,11 @@ func init() {
 		add(reg.Quick, 20, spec{Cfg: cfg, Shape: "chain1", N: 1, F: 1, C: 1, MaxPer: 2}, 2, 1)
 		add(reg.Thorough, 60, spec{Cfg: cfg, Shape: "chain2", N: 1, F: 1, C: 0, MaxPer: 2}, 0, 1)
 		add(reg.Thorough, 30, spec{Cfg: cfg, Shape: "fanout", N: 1, F: 1, C: 0, MaxPer: 2}, 1, 1)
+		if !cfg.Blocking { // (in blocking mode a subscriber that leaves runs into the known C05 finding: unsubscribe waits for the publisher's read lock)
+			// (one preemption - the leaver's removal between two iterations of the dispatch loop - takes ~250k executions per
+			// configuration with a router in the picture: thorough tier; C04's */cancel-during-dispatch decides the same
+			// window on the bare Pub/Sub in the quick tier)
+			add(reg.Quick, 5, spec{Cfg: cfg, Shape: "fanout+leaver", N: 1, F: 0, C: 0, MaxPer: 0}, 1, 0)
+		}
 	}
 }
